@@ -498,22 +498,24 @@ fn tx_events(tx: &bitcoin::Transaction, base: usize) -> (Vec<String>, usize) {
         format!("@{}+{}|@+0|@+0", base, len)
     };
     ev.push(format!(
-        "tx(v=@{}+{},ver={},lock={},pre={},w={})",
+        "tx(v=@{}+{},ver={},lock={},pre={},w={},txid={})",
         base,
         len,
         tx.version.0,
         tx.lock_time.to_consensus_u32(),
         pre,
-        tx.weight().to_wu()
+        tx.weight().to_wu(),
+        hex(&tx.compute_txid().to_byte_array())
     ));
     (ev, len)
 }
 fn header_ev(h: &bitcoin::block::Header) -> String {
     format!(
-        "hdr(v=@0+80,ver={},prev=@4+32,merkle=@36+32,time={},nonce={})",
+        "hdr(v=@0+80,ver={},prev=@4+32,merkle=@36+32,time={},nonce={},hash={})",
         h.version.to_consensus(),
         h.time,
-        h.nonce
+        h.nonce,
+        hex(&h.block_hash().to_byte_array())
     )
 }
 fn ev_of_line(line: &str) -> &str {
@@ -836,8 +838,8 @@ pub fn rb(name: &str, b: &[u8], n: usize, ours: &Result<usize, Error>, line: &st
                         {
                             bad.push("tx-preimage");
                         }
-                        if cut(last_ours, ",w=", ")") != cut(last_want, ",w=", ")")
-                            || cut(obj, ",w=", ",txid=") != cut(last_want, ",w=", ")")
+                        if cut(last_ours, ",w=", ",txid=") != cut(last_want, ",w=", ",txid=")
+                            || cut(obj, ",w=", ",txid=") != cut(last_want, ",w=", ",txid=")
                         {
                             bad.push("tx-weight");
                         }
@@ -846,7 +848,7 @@ pub fn rb(name: &str, b: &[u8], n: usize, ours: &Result<usize, Error>, line: &st
                         }
                         // C10: txid from both backends == rust-bitcoin's
                         let want_txid = hex(&tx.compute_txid().to_byte_array());
-                        if cut(obj, ",txid=", ")") != want_txid {
+                        if cut(obj, ",txid=", ")") != want_txid || cut(last_ours, ",txid=", ")") != want_txid {
                             bad.push("txid");
                         }
                         if !bad.is_empty() {
@@ -860,8 +862,10 @@ pub fn rb(name: &str, b: &[u8], n: usize, ours: &Result<usize, Error>, line: &st
             "header" => {
                 let t = accept_reject!(bitcoin::block::Header, b, ours)?;
                 if let (Ok((h, _)), Ok(_)) = (t, ours) {
-                    if header_ev(&h) != ev_of_line(line) {
-                        return Err("FAIL:header-fields".into());
+                    let (w, o) = (header_ev(&h), ev_of_line(line).to_string());
+                    if w != o {
+                        let cutf = |s: &str| s.split(",hash=").next().unwrap_or("").to_string();
+                        return Err(if cutf(&w) == cutf(&o) { "FAIL:header-hashes(in-the-callback)".into() } else { "FAIL:header-fields".into() });
                     }
                     let p = bsl::BlockHeader::parse(b).unwrap().parsed_owned();
                     if p.prev_blockhash() != &h.prev_blockhash.to_byte_array()[..]
